@@ -297,3 +297,6 @@ def _concrete_replay(env, cfg):
               detail=f"{'not an Algorithm-L step at e.g. ' + str(div[0]) if div else 'state updates follow Algorithm L'}; real class k={worst[1]}, n={worst[2]}: inclusion "
                      f"frequencies {worst[3][:8]}{'...' + str(worst[3][-4:]) if len(worst[3]) > 8 else ''} vs {worst[1]}/{worst[2]} "
                      f"({worst[0]:.0f} sigma{', capacity of dtype ' + dt if dt else ''})")
+
+META['explanation'] += ' The constructor group also runs with NumPy-integer capacities (int8 ... int64): the proxy emits the obligation no_silent_integer_wraparound whenever a NumPy integer narrower than 64 bit meets a weak Python int (NEP 50); a refutation is replayed on the real class with that capacity.'
+META['assumptions'].append('64-bit integer counters do not overflow (no stream is that long); narrower NumPy integers are checked')
